@@ -422,3 +422,54 @@ mod tests {
         assert!(transaction_ids.is_empty());
     }
 }
+
+// ----------------------------------------------------------------------------//
+
+/// Verification hooks: read-only views of the generator state and a setter that jumps the
+/// allocation marker (to reach the wrap-around without issuing 2^24 / 2^40 ids first).
+#[cfg(btdht_verif)]
+mod verif_hooks {
+    use super::*;
+
+    impl AIDGenerator {
+        /// (next_alloc, curr_index, current block)
+        pub fn verif_state(&self) -> (u64, usize, Vec<u64>) {
+            (self.next_alloc, self.curr_index, self.action_ids.to_vec())
+        }
+
+        /// Exhaust the current block and make the next one start at `next_alloc`.
+        pub fn verif_jump(&mut self, next_alloc: u64) {
+            self.next_alloc = next_alloc;
+            self.curr_index = ACTION_ID_PREALLOC_LEN;
+        }
+    }
+
+    impl MIDGenerator {
+        /// `action_id` is the plain (unshifted) action id.
+        pub fn verif_new(action_id: u64) -> MIDGenerator {
+            MIDGenerator::new(action_id << MESSAGE_ID_SHIFT)
+        }
+
+        /// (shifted action id, next_alloc, curr_index, current block)
+        pub fn verif_state(&self) -> (u64, u64, usize, Vec<u64>) {
+            (
+                self.action_id,
+                self.next_alloc,
+                self.curr_index,
+                self.message_ids.to_vec(),
+            )
+        }
+
+        /// Exhaust the current block and make the next one start at `next_alloc`.
+        pub fn verif_jump(&mut self, next_alloc: u64) {
+            self.next_alloc = next_alloc;
+            self.curr_index = MESSAGE_ID_PREALLOC_LEN;
+        }
+    }
+
+    impl ActionID {
+        pub fn verif_value(&self) -> u64 {
+            self.action_id
+        }
+    }
+}
